@@ -52,6 +52,8 @@ TRUSTED = [
     'or def<->class, at most 3 per walk; judged on the final source (reference analysis of ast.parse(final)) when the final '
     'tree equals a from-scratch parse (else skipped, tallied); replacements pfst refuses are skipped',
     'the translation of real trees into the model syntax (c16_lib.to_model) uses pfst\'s syntax_ordered_children for child order',
+    'load-folded: the names READ in a scope are additionally compared with symtable with the PEP 695 annotation-scope tables nested '
+    'in the scope folded in (no soft exclusion; type-parameter names left out)',
     'PEP 695 annotation scopes are not scopes pfst knows; spec and reference follow the pfst documentation (type-parameter '
     'bounds, annotations, bases, keywords -> enclosing scope; type parameters -> the def\'s own scope; `type X[T] = v` walked as '
     'ordinary children).  Against symtable every name of a scope that occurs in such a region is left out (tallied soft_skipped)',
@@ -626,7 +628,24 @@ def _program(arg):
         bound_t = keep(d['assigned'] | d['param'] | d['imported'])
         bound_p = keep(got['store'] | got['del'])
         aug = {mg(x) for x, w in sc.ev['load'].items() if 'AugAssign' in w}
+        # load with the annotation scopes folded in: pfst attributes bounds, annotations of generic defs, bases of generic
+        # classes and `type` statement values to the enclosing real scope, CPython to annotation scopes nested in it.  The
+        # names READ there are compared without the soft exclusion (type-parameter names themselves are left out: CPython
+        # binds them in the annotation scope, pfst in the def)
+        folded = set(d['referenced'])
+        tp_names = set()
+        for at in L.annotation_tables(tb):
+            da = L.sym_classes(at)
+            folded |= da['referenced']
+            tp_names |= da['assigned'] | da['param']
+        tp_names |= {mg(x) for x, w in sc.ev['store'].items() if 'type_param' in w or 'TypeAlias.type_params' in w}
+
+        def keep2(s_):
+            return {x for x in s_ if x not in walrus and x not in tp_names and (x in explicit or x not in IMPLICIT)
+                    and not (is_mod and x in set(map(mg, sc.walrus_in)))}
+
         checks = [
+            ('load-folded', keep2(got['load']) - aug, keep2(folded) - aug),
             ('store|del', bound_p, bound_t),
             ('global', keep(got['global']), keep(d['global_decl']) if not is_mod else keep(got['global'])),
             ('nonlocal', keep(got['nonlocal']), keep(d['nonlocal'])),
@@ -646,7 +665,7 @@ def _program(arg):
                 tags = ref.fi_events.get((id(sc), 'load', unm.get(name, name)), [])
                 if binders and binders <= CAPTURE and ((miss and cname in ('store|del', 'local')) or (not miss and cname == 'free')):
                     sig = f'C16|scope_symbols|{sorted(binders)[0]}|missing-store'
-                elif miss and cname in ('load', 'free') and tags and all(tags):
+                elif miss and cname in ('load', 'load-folded', 'free') and tags and all(tags):
                     sig = f'C16|scope_symbols|comp-first-iter-{tags[0]}|missing-load'
                 elif name in leak and ((not miss and cname in ('store|del', 'local', 'free')) or (miss and cname == 'free')):
                     sig = 'C16|scope_symbols|walrus-under-lambda-in-comp|extra-store'
@@ -663,7 +682,7 @@ def _program(arg):
 
 def _programs(ctx, ngen, ncorpus, nstd):
     rng = random.Random(ctx.rng.random())
-    progs = list(c16_gen.FIXED) + c16_gen.programs(rng, ngen)
+    progs = list(c16_gen.FIXED) + c16_gen.typealias_programs() + c16_gen.programs(rng, ngen)
     rng2 = random.Random(ctx.rng.random())
     progs += corpus.programs(rng2, ncorpus, stdlib=nstd)
     progs += c16_gen.product_programs()
